@@ -418,8 +418,27 @@ def wl_partition(ctx, rng, i):
                     judge_set(ctx, "outer CompositeDataSource.query()", outer.query(), exp_f, c3)
                     some = rng.choice(union.ids())
                     outer.related_to(some)
-                    outer.all_versions(some)
-                    outer.get(some)
+                    # lookups by id through the filtered parent: the versions its filter lets through, the newest of them
+                    for sid in [some] + rng.sample(union.ids(), min(2, len(union.ids()))):
+                        exp_v = evaluate([f], union.versions(sid), TS_PROPS)
+                        got_v = {key(norm(x)) for x in outer.all_versions(sid)}
+                        ctx.ev()
+                        ctx.count("nested_lookups")
+                        if got_v != {key(x) for x in exp_v}:
+                            ctx.violation("nested-composite-filter-not-applied:all_versions", "outer composite (filter %s) over an inner composite: all_versions(%s) gave %d version(s), %d pass the filter" % (
+                                fdesc(f), sid, len(got_v), len(exp_v)), dict(c3, id=sid))
+                            break
+                        g = outer.get(sid)
+                        if exp_v:
+                            newest = max(exp_v, key=version_instant)
+                            if g is None or key(norm(g)) != key(newest):
+                                ctx.violation("nested-composite-filter-not-applied:get", "outer composite (filter %s) over an inner composite: get(%s) answered %s, newest passing is %s" % (
+                                    fdesc(f), sid, "nothing" if g is None else norm(g).get("modified"), newest.get("modified")), dict(c3, id=sid))
+                                break
+                        elif g is not None:
+                            ctx.violation("nested-composite-filter-not-applied:get", "outer composite (filter %s) over an inner composite: get(%s) answered a version the filter excludes" % (
+                                fdesc(f), sid), dict(c3, id=sid, returned=norm(g)))
+                            break
                     judge_set(ctx, "inner CompositeDataSource.query() after use through a filtered parent", inner.query(), union.items, c3,
                               mech_hint="composite-filters-leak-into-nested-composite")
                     g = inner.get(some)
@@ -465,6 +484,16 @@ def wl_partition(ctx, rng, i):
                         again = outer3.query()
                         if set(keys(again)) != exp_nested:
                             ctx.violation("composite-filters-leak-to-sibling", "the second identical query through the outer composite differs from the first", c5)
+                        # lookups by id: under the inner composite both filters count, beside it only the outer one
+                        for sid in rng.sample(union.ids(), min(3, len(union.ids()))):
+                            exp_v = {k_ for k_ in exp_nested if k_[0] == sid}
+                            got_v = {key(norm(x)) for x in outer3.all_versions(sid)}
+                            ctx.ev()
+                            ctx.count("nested_lookups")
+                            if got_v != exp_v:
+                                ctx.violation("nested-composite-filter-not-applied:all_versions", "outer composite (filter %s) over [inner composite (filter %s), sibling]: all_versions(%s) gave %d version(s), expected %d" % (
+                                    fdesc(f), fdesc(f2), sid, len(got_v), len(exp_v)), dict(c5, id=sid))
+                                break
                 except Unjudged:
                     pass
                 except Exception as e:
